@@ -732,8 +732,10 @@ func genC14(w *bufio.Writer, seed int64, n int, tier string) {
 				shape = 7
 			} else if i == 5 {
 				shape = 8
-			} else if i > 5 {
-				shape = r.Intn(9)
+			} else if i == 6 {
+				shape = 9
+			} else if i > 6 {
+				shape = r.Intn(10)
 			}
 			switch shape {
 			case 0: // replica first, then bursts (also of a single write: the last write must arrive)
@@ -823,6 +825,12 @@ func genC14(w *bufio.Writer, seed int64, n int, tier string) {
 				case 2:
 					g.emit("heal")
 				}
+				g.emit("settle")
+			case 9: // a long backlog: the replica needs many reconnects in a row (one response each); the
+				// delay between them must not grow with the number of reconnects already made
+				g.many(560 + r.Intn(140))
+				g.burst(1, 3)
+				g.emit("join")
 				g.emit("settle")
 			case 8: // a session that stays open and idle across a log rotation, then the last write(s)
 				g.emit("join")
